@@ -876,7 +876,8 @@ public:
                     }
                     if (ignore_empty_values_ && buffer_.empty())
                     {
-                        state_ = csv_parse_state::end_record;
+                        // an ignored empty value that ends a list of subfields still has to close that list
+                        state_ = (stack_.back() == csv_mode::subfields) ? csv_parse_state::before_last_unquoted_field_tail : csv_parse_state::end_record;
                     }
                     else
                     {
@@ -897,7 +898,8 @@ public:
                     }
                     else
                     {
-                        state_ = csv_parse_state::end_record;
+                        // an ignored empty value that ends a list of subfields still has to close that list
+                        state_ = (stack_.back() == csv_mode::subfields) ? csv_parse_state::before_last_unquoted_field_tail : csv_parse_state::end_record;
                     }
                     break;
                 case csv_parse_state::quoted_string: // end of input inside a quoted field: the closing quote is missing
@@ -916,7 +918,8 @@ public:
                         }
                         else
                         {
-                            state_ = csv_parse_state::end_record;
+                            // an ignored empty value that ends a list of subfields still has to close that list
+                            state_ = (stack_.back() == csv_mode::subfields) ? csv_parse_state::before_last_unquoted_field_tail : csv_parse_state::end_record;
                         }
                     }
                     else
@@ -1140,7 +1143,8 @@ public:
                             }
                             else
                             {
-                                state_ = csv_parse_state::end_record;
+                                // an ignored empty value that ends a list of subfields still has to close that list
+                                state_ = (stack_.back() == csv_mode::subfields) ? csv_parse_state::before_last_unquoted_field_tail : csv_parse_state::end_record;
                             }
                             break;
                         }
@@ -1160,7 +1164,7 @@ public:
                                 {
                                     trim_string_buffer(trim_leading_,trim_trailing_);
                                 }
-                                before_value(local_visitor, ec);
+                                before_value(local_visitor, ec, true);
                                 state_ = csv_parse_state::before_quoted_subfield;
                             }
                             else if (curr_char == ' ' || curr_char == '\t')
@@ -1331,7 +1335,8 @@ public:
                             }
                             else
                             {
-                                state_ = csv_parse_state::end_record;
+                                // an ignored empty value that ends a list of subfields still has to close that list
+                                state_ = (stack_.back() == csv_mode::subfields) ? csv_parse_state::before_last_unquoted_field_tail : csv_parse_state::end_record;
                             }
                             break;
                         }
@@ -1351,7 +1356,7 @@ public:
                                 {
                                     trim_string_buffer(trim_leading_,trim_trailing_);
                                 }
-                                before_value(local_visitor, ec);
+                                before_value(local_visitor, ec, true);
                                 state_ = csv_parse_state::before_unquoted_subfield;
                             }
                             else if (curr_char == quote_char_)
@@ -1542,7 +1547,7 @@ private:
 
     // name
     void before_value(basic_json_visitor<CharT>& visitor, 
-        std::error_code& ec)
+        std::error_code& ec, bool opens_subfields = false)
     {
         switch (stack_.back())
         {
@@ -1564,7 +1569,8 @@ private:
             case csv_mode::data:
                 if (mapping_kind_ == csv_mapping_kind::n_objects)
                 {
-                    if (!(ignore_empty_values_ && buffer_.empty()))
+                    // a list of subfields gets its key even when its first subfield is an ignored empty value
+                    if (!(ignore_empty_values_ && buffer_.empty()) || opens_subfields)
                     {
                         if (column_index_ < column_names_.size() + offset_)
                         {
@@ -1826,7 +1832,7 @@ private:
                     {
                         end_value(visitor, infer_types_, ec);
                     }
-                    else
+                    else if (stack_.back() == csv_mode::data)
                     {
                         m_columns_filter_.skip_column();
                     }
@@ -1888,7 +1894,7 @@ private:
                     {
                         end_value(visitor, false, ec);
                     }
-                    else
+                    else if (stack_.back() == csv_mode::data)
                     {
                         m_columns_filter_.skip_column();
                     }
